@@ -67,7 +67,7 @@ func (mdb *memDb) Get(ctx context.Context, key []byte) ([]byte, error) {
 	if mk.Translation != "" {
 		v, ok = mdb.store[mk.Translation]
 		if ok {
-			return v, nil
+			return append([]byte{}, v...), nil
 		}
 	}
 	v, ok = mdb.store[mk.Default]
@@ -75,7 +75,8 @@ func (mdb *memDb) Get(ctx context.Context, key []byte) ([]byte, error) {
 		//b, _ := hex.DecodeString(k)
 		return nil, db.NewErrNotFound(key)
 	}
-	return v, nil
+	// a copy: what the caller does with the value must not change what is stored
+	return append([]byte{}, v...), nil
 }
 
 // Put implements Db
@@ -93,6 +94,8 @@ func (mdb *memDb) Put(ctx context.Context, key []byte, val []byte) error {
 	} else {
 		k = mk.Default
 	}
+	// the store keeps its own copy: the caller is free to reuse its buffer
+	val = append([]byte{}, val...)
 	mdb.store[k] = val
 	logg.TraceCtxf(ctx, "mem put", "k", k, "mk", mk, "v", val)
 	return nil
